@@ -528,3 +528,64 @@ Example C06_render_total_nonvacuous :
                       pm_amt := AText [55; 57; 50; 50; 56; 49; 54; 50; 53; 49; 52; 50; 54; 52; 51; 51; 55; 53; 57;
                                        51; 53; 52; 51; 57; 53; 48; 51; 51; 53; 46; 48; 48]%N |})].
 Proof. vm_compute. repeat split. Qed.
+
+(* The whole report (ledger output -> gains -> tables), exact arithmetic: in
+   every security table the Total is the sum of the capital gains of ITS rows
+   and each year's figure the sum of the gains of its rows settled in that
+   year (the years shown: ascending, exactly the settlement years with a
+   gain); a rejected security shows its partial rows with "Total $0". *)
+Theorem C06_report_totals : forall full cur secs rep,
+  render_results exact full cur secs = Ok rep ->
+  Forall2 (fun (x : sec_result) (y : N * option stop * table) =>
+             fst (fst y) = fst x /\
+             let rows := gain_rows (fst (snd x)) in
+             match snd (snd x) with
+             | None =>
+                 exists g, security_gains exact gains0 rows = Ok g /\
+                   tb_labels (snd y) = LTotal :: map LYear (years_sorted g) /\
+                   tb_values (snd y) = pm_value full (sum_all rows) false
+                                         :: map (fun yr => pm_value full (sum_year yr rows) false) (years_sorted g)
+             | Some _ =>
+                 tb_labels (snd y) = [LTotal] /\ tb_values (snd y) = [pm_value full 0 false]
+             end)
+          secs (rp_tables rep).
+Proof. exact RenderProps.report_totals_are_row_sums. Qed.
+Check C06_report_totals : forall full cur secs rep,
+  render_results exact full cur secs = Ok rep ->
+  Forall2 (fun (x : sec_result) (y : N * option stop * table) =>
+             fst (fst y) = fst x /\
+             let rows := gain_rows (fst (snd x)) in
+             match snd (snd x) with
+             | None =>
+                 exists g, security_gains exact gains0 rows = Ok g /\
+                   tb_labels (snd y) = LTotal :: map LYear (years_sorted g) /\
+                   tb_values (snd y) = pm_value full (sum_all rows) false
+                                         :: map (fun yr => pm_value full (sum_year yr rows) false) (years_sorted g)
+             | Some _ =>
+                 tb_labels (snd y) = [LTotal] /\ tb_values (snd y) = [pm_value full 0 false]
+             end)
+          secs (rp_tables rep).
+Print Assumptions C06_report_totals.
+
+(* the pipeline on two rows: buy 2 at 10.005 on 2019-12-30, sell 1 at 12 settling
+   2020-01-02: gain 1.995 in 2020, shown "$2.00" (tie away from zero) *)
+Definition ex_tx (day : Z) (ri : N) (a : action) : tx :=
+  {| t_sec := 0; t_td := day; t_sd := day; t_act := a; t_af := default_aff; t_glob := false; t_ri := ri |}.
+Example C06_report_nonvacuous :
+  match render_app exact false ex_cur []
+          [ex_tx 737423 0 (Buy (QcZ 2) (Qcfrac 10005 1000) 0 1 1);
+           ex_tx 737426 1 (Sell (QcZ 1) (QcZ 12) 0 1 1 None)] with
+  | Ok rep =>
+      match rp_tables rep with
+      | [(s, None, tb)] =>
+          s = 0%N /\ length (tb_rows tb) = 2%nat /\ tb_labels tb = [LTotal; LYear 2020%Z] /\
+          map pm_amt (tb_values tb) = [AText [50; 46; 48; 48]%N; AText [50; 46; 48; 48]%N] /\
+          map (fun r => txt (cell_at r col_new_acb_share)) (tb_rows tb)
+            = [Some [49; 48; 46; 48; 49]%N; Some [49; 48; 46; 48; 49]%N]
+      | _ => False
+      end /\
+      map (fun x => (fst x, pm_amt (snd x))) (rp_aggregate rep)
+        = [(LYear 2020%Z, AText [50; 46; 48; 48]%N); (LSince, AText [50; 46; 48; 48]%N)]
+  | _ => False
+  end.
+Proof. vm_compute. repeat split. Qed.
